@@ -103,6 +103,7 @@ struct PmModel {
   unsigned next = 0;         // fresh id counter (never reused)
   bool final_ = true;
   bool barcode_read = false;
+  long nobs_ = 0;
   bool moved_from = false;   // lcm_replay: the real matrix was the source of a move
   static std::string& cfgname() { static std::string n; return n; }
   static const char* name() { return cfgname().c_str(); }
@@ -433,7 +434,13 @@ struct PmModel {
     }
     // representative cycles (C08): each returned cycle must be one of the representatives the specification allows
     if constexpr (Opt::can_retrieve_representative_cycles && Opt::has_column_pairings) {
-      if (expected_ && expected_->contains("reps_set")) {
+      // Representative cycles are a cache the user refreshes with update_representative_cycles(): with VF_MID_UPDATE=1
+      // the driver refreshes (and judges) it only at every second observation and at the last one of a behaviour, so that
+      // two updates are separated by batches of two operations - also a removal followed by an insertion, which leaves
+      // the number of columns unchanged.
+      static const bool mid = [] { const char* e = std::getenv("VF_MID_UPDATE"); return e && std::string(e) == "1"; }();
+      ++nobs_;
+      if (expected_ && expected_->contains("reps_set") && (!mid || final_ || nobs_ % 2 == 0)) {
         m->update_representative_cycles();
         const auto& all = m->get_representative_cycles();
         std::multiset<std::vector<int>> allset;
